@@ -21,7 +21,7 @@ LEVEL = "exploration"
 RULE = ("every parameter class x configuration (must_exist, valid_types of CSV and NetCDF reads, nested ListParameters, ResultParameter "
         "with/without output type and each is_fuzzy) x ~130 raw values of every kind the parser or API delivers x working directory in "
         "{None, absolute, relative, empty}; plus live contracts during random whole-model runs; distinct by (parameter config, raw value class, wd, outcome class)")
-REQUIRED_COUNTERS = ["clean_calls_judged", "contract_evaluations", "idempotence_checks", "purity_snapshots_compared", "live_double_clean_pairs", "live_argument_snapshots_compared"]
+REQUIRED_COUNTERS = ["failed_command_rechecks", "clean_calls_judged", "contract_evaluations", "idempotence_checks", "purity_snapshots_compared", "live_double_clean_pairs", "live_argument_snapshots_compared"]
 ASSUMPTIONS = ["don't-care: what StringParameter makes of non-scalars, bool given to NumberParameter, ints other than 0/1 and numeric strings other than "
                "'0'/'1' given to BooleanParameter, 'nan'/'inf'/underscore literals, relative working directories", "NaN compared NaN-aware"]
 
@@ -81,7 +81,13 @@ def typed_ok(param, raw, result, program=None):
     if t is P.Parameter:
         return None if result is raw else "base-parameter-changes-value"
     if isinstance(param, P.DataTypeParameter):
-        return None if result in list(param.valid_types.values()) else "datatype-not-a-declared-type"
+        # the table the parameter was configured with, as written down when it was made (the default one: Float / Integer)
+        table = getattr(param, "_verif_table", None) or dict(param.valid_types)
+        if isinstance(raw, str):
+            if raw not in table:
+                return "datatype-name-not-declared-yet-accepted"
+            return None if result is table[raw] else "datatype-name-maps-to-another-type"
+        return None if any(result is t for t in table.values()) else "datatype-not-a-declared-type"
     if isinstance(param, P.PathParameter):
         if not isinstance(result, str):
             return "path-not-str"
@@ -232,7 +238,7 @@ def finish(ctx):
 def configs():
     from mpilot import params as P
     nc = {"Float": numpy.float64, "Integer": int, "Positive Float": numpy.float64, "Positive Integer": numpy.uint, "Fuzzy": numpy.float64}
-    return [
+    cfgs = [
         P.Parameter(), P.StringParameter(), P.NumberParameter(), P.BooleanParameter(), P.PathParameter(must_exist=True), P.PathParameter(must_exist=False),
         P.ResultParameter(), P.ResultParameter(P.DataParameter()), P.ResultParameter(P.DataParameter(), is_fuzzy=True), P.ResultParameter(P.DataParameter(), is_fuzzy=False),
         P.ResultParameter(P.BooleanParameter()), P.ResultParameter(P.ListParameter(P.NumberParameter())), P.ResultParameter(P.StringParameter()),
@@ -242,6 +248,10 @@ def configs():
         P.ListParameter(P.BooleanParameter()),
         P.TupleParameter(), P.DataParameter(), P.DataTypeParameter(), P.DataTypeParameter(valid_types={"Float": float, "Integer": int}), P.DataTypeParameter(valid_types=nc),
     ]
+    cfgs[-3]._verif_table = {"Float": float, "Integer": int}
+    cfgs[-2]._verif_table = {"Float": float, "Integer": int}
+    cfgs[-1]._verif_table = dict(nc)
+    return cfgs
 
 
 def pool(program, d, with_arrays=False):
@@ -322,6 +332,11 @@ def _world(ctx, wd):
     program.add_command(cls, "U", {"InFieldName": "A"})
     # an unfinished command of a plugin class that declares no output type
     program.add_command(program.find_command_class("NoOut"), "V", {})
+    # a command that is going to fail when it is run (it is run, once, only after everything else was judged)
+    program.add_command(program.find_command_class("Flaky"), "Bad", {})
+    # other programs of the process use other libraries: the NetCDF set is loaded in some worlds before anything is cleaned
+    if wd in ("rel", "abs-copied", "none"):
+        arr.new_program(arr.NC_LIBS)
     # finished producers of non-array results (what user libraries return): a tuple of numeric texts, a number, a text
     for nm, val in (("TupleRes", ("1", "2.5", 3)), ("NumRes", 5), ("TextRes", "7")):
         arr.standin(program, nm, val)
@@ -423,6 +438,44 @@ def run_case(ctx, case):
                 ctx.fail("%s:%s:not-idempotent" % (label, vclass), {"raw": repr(raw)[:120], "cleaned": repr(r1)[:120], "recleaned": repr(r3)[:120]})
         except Exception as e:
             ctx.fail("%s:%s:reclean-raises-%s" % (label, vclass, type(e).__name__), {"raw": repr(raw)[:120], "cleaned": repr(r1)[:120]})
+    if isinstance(param, (P.ResultParameter, P.ListParameter)) or type(param) is P.Parameter:
+        # history: a referenced command fails when it is run; references to it clean afterwards as they did before
+        import vprobe
+        bad = program.commands["Bad"]
+        raws = ["Bad", bad, ["A", "Bad"], [bad], ["Bad"]]
+
+        def outcome(raw):
+            try:
+                return "ok", param.clean(raw, program, 7)
+            except Exception as e:
+                return type(e).__name__, None
+        before = [outcome(r) for r in raws]
+        vprobe.FLAKY["fail"] = True
+        vprobe.FLAKY["exc"] = [IOError, ValueError, TypeError][case["config"] % 3]
+        how = ["run", "result", "program-run"][case["config"] % 3 if case["wd"] != "abs" else (case["config"] + 1) % 3]
+        raised = None
+        try:
+            if how == "run":
+                bad.run()
+            elif how == "result":
+                bad.result
+            else:
+                program.run()
+        except Exception as e:
+            raised = type(e).__name__
+        finally:
+            vprobe.FLAKY["fail"] = False
+            vprobe.FLAKY["exc"] = IOError
+        if raised is None:
+            ctx.note_inconclusive("the failing command did not fail")
+        else:
+            ctx.count("failed_command_rechecks")
+            after = [outcome(r) for r in raws]
+            for raw, (ob, rb), (oa, ra) in zip(raws, before, after):
+                ctx.count("clean_calls_judged")
+                if ob != oa or (ob == "ok" and not equal(rb, ra)):
+                    ctx.fail("%s:%s:reference-to-a-command-that-failed-cleans-differently-afterwards:%s-instead-of-%s" % (label, value_class(raw), oa, ob), {"raw": repr(raw)[:120], "failed_through": how, "raised": raised})
+                    break
     if isinstance(param, P.PathParameter) and case["wd"] == "abs":
         # the same parameter object serves every program of the process: a second program with another working directory
         program2, d2 = _world(ctx, "abs")
